@@ -5,7 +5,11 @@
 // Shapes: leaf key kinds, 0-2 intermediates, root included or omitted in the submission,
 // precertificates issued directly or by a dedicated precert-signing issuer (CT EKU), random
 // other extensions with the poison at any position, cross-certified issuers (two trusted roots),
-// a root carrying the CT EKU; log keys ECDSA P-256 and RSA 2048; clock values at millisecond
+// a root carrying the CT EKU, lines of CAs in which ANY certificate (the precertificate's signer,
+// the CA above it, the one above that, the root) may list the CT EKU next to or instead of
+// serverAuth and may lack a subject key id (so that the final issuer is not "the first CA without
+// the CT EKU" and the pre-issuer comes with and without an authority key id), with 0-3
+// certificates above the final issuer; log keys ECDSA P-256 and RSA 2048; clock values at millisecond
 // boundaries, with nanosecond remainders, far in the future, not monotone; histories that mix
 // first-time and repeated submissions of the same leaf with the same / a longer / a shorter /
 // another chain.
@@ -16,7 +20,10 @@
 // input a client derives (a) with the library's client path from the SUBMITTED chain at the
 // SCT's timestamp and (b) by hand from the RFC text - for precertificates from the FINAL
 // certificate (same content, SCT list instead of poison, issued by the final CA) with its SCT
-// list removed and the final issuer's key hash; LeafValue = that entry at the request's own
+// list removed and the final issuer's key hash, and (c) field by field on the queued entry with a
+// hand-written DER walk: issuer_key_hash = SHA-256(SPKI of the certificate the PKI construction
+// knows to be the final issuer), TBSCertificate.issuer = that certificate's subject, authority key
+// id = its subject key id, no poison; LeafValue = that entry at the request's own
 // timestamp; LeafIdentityHash = SHA-256(submitted leaf); ExtraData = the validated chain with
 // the root; a repeat carries the first submission's timestamp, a first submission the clock's.
 package main
@@ -73,9 +80,10 @@ type item struct {
 	final       *pki.Entity
 	finalIssuer *pki.Entity
 	shape       string
-	issuance    string // which of several issuers' chains this submission names (cross-certified pre-issuer)
-	expectOK    bool // the content path is expected to succeed
-	invalid     bool // expected to be refused by chain validation (never reaches the model)
+	issuance    string   // which of several issuers' chains this submission names (cross-certified pre-issuer)
+	expectOK    bool     // the content path is expected to succeed
+	invalid     bool     // expected to be refused by chain validation (never reaches the model)
+	tags        []string // input classes, counted when the item is submitted
 }
 
 func randBytes(r *mrand.Rand, n int) []byte {
@@ -166,8 +174,25 @@ func (w *world) leaf(k int, pre bool, signer, finalSigner *pki.Entity) (leaf, fi
 	pi := r.Intn(len(others) + 1)
 	sj := r.Intn(len(others) + 1)
 	leaf = mk(insertAt(others, pi, pki.PoisonExt()), signer)
-	final = mk(insertAt(others, sj, dummySCTListExt(r)), finalSigner)
+	finalExt := insertAt(others, sj, dummySCTListExt(r))
+	if signer != finalSigner && len(signer.Cert.SubjectKeyId) == 0 && len(finalSigner.Cert.SubjectKeyId) > 0 {
+		// The precertificate has no authority key id (its signer has no subject key id) but the
+		// final certificate names its issuer's key: the only final certificate whose extension
+		// order is that of the precertificate carries the authority key id LAST (an explicit
+		// extension; CreateCertificate then does not add its own).
+		finalExt = append(finalExt, handAKIExt(finalSigner.Cert.SubjectKeyId))
+	}
+	final = mk(finalExt, finalSigner)
 	return leaf, final, fmt.Sprintf("precert key=%s ext=%d poison@%d sct@%d", kind, nExtra, pi, sj)
+}
+
+// handAKIExt is AuthorityKeyIdentifier ::= SEQUENCE { keyIdentifier [0] IMPLICIT OCTET STRING } by hand.
+func handAKIExt(keyID []byte) pkix.Extension {
+	if len(keyID) > 100 {
+		panic("key id too long for the short form")
+	}
+	v := append([]byte{0x30, byte(len(keyID) + 2), 0x80, byte(len(keyID))}, keyID...)
+	return pkix.Extension{Id: x509.OIDExtensionAuthorityKeyId, Value: v}
 }
 
 func newInt(b []byte) *big.Int { return new(big.Int).SetBytes(b) }
@@ -190,9 +215,9 @@ func chainOf(es ...*pki.Entity) []*pki.Entity { return es }
 // build populates roots and items for one scenario.
 func (w *world) build() {
 	r := w.r
-	scenario := []string{"plain", "plain", "plain", "cross-intermediate", "cross-preissuer", "root-ct-eku"}[r.Intn(6)]
-	if w.id < 6 {
-		scenario = []string{"plain", "cross-intermediate", "cross-preissuer", "root-ct-eku", "plain", "plain"}[w.id]
+	scenario := []string{"plain", "plain", "plain", "cross-intermediate", "cross-preissuer", "root-ct-eku", "eku-ladder", "eku-ladder"}[r.Intn(8)]
+	if w.id < 7 {
+		scenario = []string{"plain", "cross-intermediate", "cross-preissuer", "root-ct-eku", "eku-ladder", "eku-ladder", "plain"}[w.id]
 	}
 	w.tags = append(w.tags, "scenario:"+scenario)
 	rootKind := caKinds[r.Intn(len(caKinds))]
@@ -235,10 +260,7 @@ func (w *world) build() {
 					piSKI = ski(r)
 				}
 				pi := w.ca(fmt.Sprintf("preissuer-%d-%d", w.id, k), issuer, []x509.ExtKeyUsage{x509.ExtKeyUsageCertificateTransparency}, 3, kindOf(issuer), piSKI)
-				l, f, d := w.leaf(k, true, pi, issuer)
-				if piSKI == nil {
-					f = nil // the authority key id then moves to the end of the entry: no CreateCertificate twin
-				}
+				l, f, d := w.leaf(k, true, pi, issuer) // piSKI == nil: the authority key id moves to the end of the entry
 				both(fmt.Sprintf("Q%d", k), true, append([]*pki.Entity{l, pi}, path...), f, issuer, fmt.Sprintf("%s preissuer(ski=%v) inter=%d", d, piSKI != nil, nInter))
 			}
 		}
@@ -296,6 +318,109 @@ func (w *world) build() {
 		both("Z1", false, chainOf(c, rootCT), nil, nil, d2+" issuer=root-with-ct-eku")
 		l2, f2, d3 := w.leaf(2, true, root, root)
 		both("Z2", true, chainOf(l2, root), f2, root, d3+" direct inter=0")
+	case "eku-ladder":
+		// A line of CAs  line[0] <- line[1] <- ... <- line[n] (trusted root)  in which EVERY
+		// certificate independently may list the CT EKU (alone, or next to serverAuth as an
+		// EKU-constrained CA above a precertificate signing certificate has to) and may lack a
+		// subject key id; precertificates and certificates are issued at every depth.  RFC 6962
+		// 3.1: a CA certificate with the CT EKU that signs a precertificate IS the precertificate
+		// signing certificate, and the final issuer is the CA that certified it - whatever that
+		// CA's own EKUs are and however many certificates follow it.
+		ctOnly := []x509.ExtKeyUsage{x509.ExtKeyUsageCertificateTransparency}
+		ekuSets := []struct {
+			name string
+			ekus []x509.ExtKeyUsage
+			ct   bool
+		}{
+			{"none", nil, false},
+			{"sa", []x509.ExtKeyUsage{x509.ExtKeyUsageServerAuth}, false},
+			{"ct", ctOnly, true},
+			{"sa+ct", []x509.ExtKeyUsage{x509.ExtKeyUsageServerAuth, x509.ExtKeyUsageCertificateTransparency}, true},
+			{"ct+sa", []x509.ExtKeyUsage{x509.ExtKeyUsageCertificateTransparency, x509.ExtKeyUsageServerAuth}, true},
+		}
+		nCA := 1 + r.Intn(3)
+		cls := make([]int, nCA+1) // index into ekuSets per line position; cls[nCA] is the root's
+		hasSKI := make([]bool, nCA+1)
+		for j := 0; j <= nCA; j++ {
+			cls[j] = r.Intn(len(ekuSets))
+			hasSKI[j] = r.Intn(4) != 0
+		}
+		if r.Intn(3) != 0 {
+			cls[nCA] = 0 // most roots have no EKU extension
+		}
+		if r.Intn(2) == 0 {
+			// two neighbours that both list the CT EKU (a pre-issuer under an EKU-constrained CA)
+			p := r.Intn(nCA)
+			if !ekuSets[cls[p]].ct {
+				cls[p] = 2 + r.Intn(3)
+			}
+			if !ekuSets[cls[p+1]].ct {
+				cls[p+1] = 3 + r.Intn(2)
+			}
+		}
+		mkSKI := func(j int) []byte {
+			if hasSKI[j] {
+				return ski(r)
+			}
+			return nil
+		}
+		line := make([]*pki.Entity, nCA+1)
+		line[nCA] = w.ca(fmt.Sprintf("lroot-%d", w.id), nil, ekuSets[cls[nCA]].ekus, 0, rootKind, mkSKI(nCA))
+		w.roots = []*pki.Entity{line[nCA]}
+		for j := nCA - 1; j >= 0; j-- {
+			kind := caKinds[r.Intn(len(caKinds))]
+			if ekuSets[cls[j]].ct {
+				// a precertificate signing certificate signs with its issuer's algorithm: the final
+				// TBSCertificate differs from the precertificate's in issuer and key id only
+				kind = kindOf(line[j+1])
+			}
+			line[j] = w.ca(fmt.Sprintf("lca-%d-%d", w.id, j), line[j+1], ekuSets[cls[j]].ekus, 1+j, kind, mkSKI(j))
+		}
+		var names []string
+		for j := 0; j <= nCA; j++ {
+			n := ekuSets[cls[j]].name
+			if !hasSKI[j] {
+				n += "/noski"
+			}
+			names = append(names, n)
+		}
+		lineDesc := "line=[" + strings.Join(names, " ") + "]"
+		one := func(name string, pre bool, path []*pki.Entity, final, finalIssuer *pki.Entity, shape string) *item {
+			// validation hands the same path to the entry builder with the root submitted or not
+			if r.Intn(2) == 0 {
+				return add(name+"+root", pre, path, path, final, finalIssuer, shape+" root=included")
+			}
+			return add(name+"-root", pre, path[:len(path)-1], path, final, finalIssuer, shape+" root=omitted")
+		}
+		for j := 0; j <= nCA; j++ {
+			signer := line[j]
+			path := func(l *pki.Entity) []*pki.Entity { return append([]*pki.Entity{l}, line[j:]...) }
+			switch {
+			case !ekuSets[cls[j]].ct:
+				l, f, d := w.leaf(j, true, signer, signer)
+				it := one(fmt.Sprintf("D%d", j), true, path(l), f, signer, fmt.Sprintf("%s direct %s depth=%d above-final=%d", d, lineDesc, j, nCA-j))
+				it.tags = []string{"ladder:direct"}
+			case j == nCA:
+				// signed by a trusted root that lists the CT EKU: no final issuer in the chain -> 400
+				l, _, d := w.leaf(j, true, signer, signer)
+				it := one(fmt.Sprintf("N%d", j), true, path(l), nil, nil, fmt.Sprintf("%s issuer=root-with-ct-eku %s depth=%d", d, lineDesc, j))
+				it.expectOK = false
+				it.tags = []string{"ladder:preissuer-is-root"}
+			default:
+				fin := line[j+1]
+				l, f, d := w.leaf(j, true, signer, fin)
+				it := one(fmt.Sprintf("Q%d", j), true, path(l), f, fin, fmt.Sprintf("%s preissuer(ski=%v aki=%v) final-issuer-eku=%s %s depth=%d above-final=%d",
+					d, hasSKI[j], hasSKI[j+1], ekuSets[cls[j+1]].name, lineDesc, j, nCA-j-1))
+				it.tags = []string{"ladder:final-issuer-eku=" + ekuSets[cls[j+1]].name, fmt.Sprintf("ladder:above-final=%d", nCA-j-1),
+					fmt.Sprintf("ladder:preissuer-ski=%v-aki=%v", hasSKI[j], hasSKI[j+1])}
+				if j+2 <= nCA && ekuSets[cls[j+1]].ct && ekuSets[cls[j+2]].ct {
+					it.tags = append(it.tags, "ladder:three-ct-ekus-in-a-row")
+				}
+			}
+		}
+		jc := r.Intn(nCA + 1)
+		c, _, dc := w.leaf(9, false, line[jc], nil)
+		one("C", false, append([]*pki.Entity{c}, line[jc:]...), nil, nil, fmt.Sprintf("%s %s depth=%d", dc, lineDesc, jc))
 	}
 }
 
@@ -401,6 +526,128 @@ func handEntry(it *item) ([]byte, uint16, bool) {
 	return append(out, tbs...), 1, true
 }
 
+// ---- a hand-written DER walk (definite lengths), used to read the queued entry field by field
+
+// derNext splits the first element off b: its tag byte, its content and the whole element.
+func derNext(b []byte) (tag byte, content, whole, rest []byte, ok bool) {
+	if len(b) < 2 {
+		return 0, nil, nil, nil, false
+	}
+	n, hdr := int(b[1]), 2
+	if b[1]&0x80 != 0 {
+		k := int(b[1] & 0x7f)
+		if k == 0 || k > 3 || len(b) < 2+k {
+			return 0, nil, nil, nil, false
+		}
+		n = 0
+		for _, x := range b[2 : 2+k] {
+			n = n<<8 | int(x)
+		}
+		hdr = 2 + k
+	}
+	if len(b) < hdr+n {
+		return 0, nil, nil, nil, false
+	}
+	return b[0], b[hdr : hdr+n], b[:hdr+n], b[hdr+n:], true
+}
+
+func derChildren(content []byte) ([][]byte, bool) {
+	var out [][]byte
+	for len(content) > 0 {
+		_, _, whole, rest, ok := derNext(content)
+		if !ok {
+			return nil, false
+		}
+		out = append(out, whole)
+		content = rest
+	}
+	return out, true
+}
+
+var (
+	derOIDPoison = []byte{0x06, 0x0a, 0x2b, 0x06, 0x01, 0x04, 0x01, 0xd6, 0x79, 0x02, 0x04, 0x03} // 1.3.6.1.4.1.11129.2.4.3
+	derOIDAKI    = []byte{0x06, 0x03, 0x55, 0x1d, 0x23}                                           // 2.5.29.35
+)
+
+// precertEntryFacts reads an RFC 6962 PreCert entry body (issuer_key_hash, opaque TBSCertificate<1..2^24-1>)
+// and says what is wrong with it for a final certificate issued by finalIssuer; "" = nothing.
+func precertEntryFacts(entry []byte, finalIssuer *pki.Entity) string {
+	if len(entry) < 35 {
+		return "the precertificate entry is too short"
+	}
+	want := sha256.Sum256(finalIssuer.Cert.RawSubjectPublicKeyInfo)
+	if !bytes.Equal(entry[:32], want[:]) {
+		return "issuer_key_hash is not SHA-256 of the FINAL issuer's SubjectPublicKeyInfo"
+	}
+	n := int(entry[32])<<16 | int(entry[33])<<8 | int(entry[34])
+	if len(entry) != 35+n {
+		return "the TBSCertificate length prefix does not cover the rest of the entry"
+	}
+	tag, content, _, rest, ok := derNext(entry[35:])
+	if !ok || tag != 0x30 || len(rest) != 0 {
+		return "the entry's TBSCertificate is not one DER SEQUENCE"
+	}
+	fields, ok := derChildren(content)
+	if !ok || len(fields) < 6 {
+		return "the entry's TBSCertificate does not split into its fields"
+	}
+	i := 0
+	if fields[0][0] == 0xa0 { // [0] EXPLICIT version
+		i = 1
+	}
+	// serialNumber, signature, issuer
+	if len(fields) < i+6 {
+		return "the entry's TBSCertificate has too few fields"
+	}
+	if !bytes.Equal(fields[i+2], finalIssuer.Cert.RawSubject) {
+		return "the entry's TBSCertificate.issuer is not the final issuer's subject name"
+	}
+	var akiValue []byte
+	nAKI := 0
+	if last := fields[len(fields)-1]; last[0] == 0xa3 { // [3] EXPLICIT Extensions
+		_, inner, _, _, ok := derNext(last)
+		if !ok {
+			return "extensions do not parse"
+		}
+		_, seq, _, _, ok := derNext(inner)
+		if !ok {
+			return "extensions do not parse"
+		}
+		exts, ok := derChildren(seq)
+		if !ok {
+			return "extensions do not parse"
+		}
+		for _, e := range exts {
+			_, ec, _, _, ok := derNext(e)
+			parts, ok2 := derChildren(ec)
+			if !ok || !ok2 || len(parts) < 2 {
+				return "an extension does not parse"
+			}
+			if bytes.Equal(parts[0], derOIDPoison) {
+				return "the entry's TBSCertificate still carries the poison extension"
+			}
+			if bytes.Equal(parts[0], derOIDAKI) {
+				_, v, _, _, ok := derNext(parts[len(parts)-1]) // extnValue OCTET STRING
+				if !ok {
+					return "authority key id does not parse"
+				}
+				akiValue = v
+				nAKI++
+			}
+		}
+	}
+	ski := finalIssuer.Cert.SubjectKeyId
+	switch {
+	case len(ski) == 0 && nAKI != 0:
+		return "the entry's TBSCertificate has an authority key id but the final issuer has no subject key id"
+	case len(ski) > 0 && nAKI != 1:
+		return "the entry's TBSCertificate does not carry exactly one authority key id (the final issuer has a subject key id)"
+	case len(ski) > 0 && !bytes.Equal(akiValue, handAKIExt(ski).Value):
+		return "the entry's authority key id is not the final issuer's subject key id"
+	}
+	return ""
+}
+
 func handSigInput(ts uint64, etype uint16, entry, ext []byte) []byte {
 	out := []byte{0, 0}
 	out = binary.BigEndian.AppendUint64(out, ts)
@@ -424,13 +671,13 @@ func verifyRaw(pub crypto.PublicKey, input, sig []byte) bool {
 // ---------------------------------------------------------------- one history
 
 type stepRec struct {
-	Item     string `json:"item"`
-	Shape    string `json:"shape"`
-	Pre      bool   `json:"pre"`
-	ChainLen int    `json:"chain_len"`
-	ClockNs  int64  `json:"clock_ns"`
-	Clock    string `json:"clock_class"`
-	Repeat   bool   `json:"repeat_of_stored_leaf"`
+	Item     string   `json:"item"`
+	Shape    string   `json:"shape"`
+	Pre      bool     `json:"pre"`
+	ChainLen int      `json:"chain_len"`
+	ClockNs  int64    `json:"clock_ns"`
+	Clock    string   `json:"clock_class"`
+	Repeat   bool     `json:"repeat_of_stored_leaf"`
 	Chain    []string `json:"chain_b64,omitempty"` // filled when the step fails the direct oracle
 }
 
@@ -495,6 +742,7 @@ func runHistory(w *world, nSteps int, out *lib.Writer) {
 	tags := append([]string{}, w.tags...)
 	tags = append(tags, "logkey:"+w.logKind)
 	var used []*item
+	tried, triedLeaf := map[string]bool{}, map[string]bool{}
 
 	for s := 0; s < nSteps; s++ {
 		var it *item
@@ -510,6 +758,23 @@ func runHistory(w *world, nSteps int, out *lib.Writer) {
 			it = same[r.Intn(len(same))]
 		} else {
 			it = w.items[r.Intn(len(w.items))]
+			if r.Intn(3) != 0 {
+				// prefer a leaf this history has not submitted yet, so that one history walks
+				// through most of its world's shapes
+				var fresh []*item
+				for _, x := range w.items {
+					if !tried[x.name] && (x.invalid || !triedLeaf[string(x.submitted[0].DER)]) {
+						fresh = append(fresh, x)
+					}
+				}
+				if len(fresh) > 0 {
+					it = fresh[r.Intn(len(fresh))]
+				}
+			}
+		}
+		tried[it.name] = true
+		if !it.invalid {
+			triedLeaf[string(it.submitted[0].DER)] = true
 		}
 		now, clockClass := clockValue(r)
 		env.Clock.Set(now)
@@ -566,6 +831,7 @@ func runHistory(w *world, nSteps int, out *lib.Writer) {
 			sr.Chain = chainB64
 		}
 		tags = append(tags, "clock:"+clockClass, fmt.Sprintf("status:%d", status), fmt.Sprintf("chainlen:%d", len(it.submitted)))
+		tags = append(tags, it.tags...)
 		if strings.Contains(it.shape, "root=omitted") {
 			tags = append(tags, "root:omitted")
 		} else if strings.Contains(it.shape, "root=included") {
@@ -714,6 +980,17 @@ func runHistory(w *world, nSteps int, out *lib.Writer) {
 							problem("LeafValue is not the TLS encoding of the independently derived entry at the request's timestamp")
 						}
 					}
+					if it.pre && it.finalIssuer != nil {
+						// (2c) field by field against the certificate the PKI construction knows to be the final issuer
+						if len(lv) < 14 || lv[0] != 0 || lv[1] != 0 || lv[10] != 0 || lv[11] != 1 {
+							problem("LeafValue is not a v1 timestamped precert_entry")
+						} else if len(lv) < 16 || lv[len(lv)-2] != 0 || lv[len(lv)-1] != 0 {
+							problem("LeafValue does not end with empty CtExtensions")
+						} else if what := precertEntryFacts(lv[12:len(lv)-2], it.finalIssuer); what != "" {
+							problem("queued precertificate entry (final issuer %s): %s", it.finalIssuer.Cert.Subject.CommonName, what)
+						}
+						tags = append(tags, "oracle:entry-fields")
+					}
 					if l2, e2 := ct.MerkleTreeLeafFromRawChain(raw, etype, reqTS); e2 == nil {
 						if b2, e3 := tls.Marshal(*l2); e3 != nil || !bytes.Equal(b2, lv) {
 							problem("LeafValue is not the TLS encoding of the client-derived entry at the request's timestamp")
@@ -795,6 +1072,7 @@ func main() {
 	klog.SetOutput(io.Discard)
 	r := lib.Rand()
 	out := lib.NewWriter(header, 2)
+	defer out.Guard()
 	n := lib.Count(26, 240)
 	for i := 0; i < n; i++ {
 		w := &world{r: r, id: i}
